@@ -287,12 +287,20 @@ def run(ctx, col: Collector):
         if not apps and any(isinstance(a, ast.Assign) and isinstance(a.targets[0], ast.Attribute) and a.targets[0].attr == 'subjects' for a in ast.walk(tb.node)):
             raise Unrecognised('TableBlueprint.build assigns <index>.subjects from something this rule cannot follow', tb.node)
         n_col = 0
+        from .common import value_sources as _vs
         for a in apps:
-            tag = origin(a.args[0], tb.node)
-            if tag[0] == 'call' and '.build()' in tag[1]:
-                continue    # expressions are built fresh per index (not links)
-            n_col += 1
-            judge(f'TableBlueprint.build:subject:{norm(a.args[0])}', tag, {'elem'}, '.columns', a, tb.file, 'index subject')
+            srcs = [a.args[0]]
+            if isinstance(a.args[0], ast.Name):
+                # a variable that holds either kind of subject (the exits of an inlined helper): each assignment is judged on its own
+                vs_ = _vs(tb.node, a.args[0].id)
+                if vs_ and len(vs_) > 1:
+                    srcs = list(vs_)
+            for src_ in srcs:
+                tag = origin(src_, tb.node)
+                if tag[0] == 'call' and '.build()' in tag[1]:
+                    continue    # expressions are built fresh per index (not links)
+                n_col += 1
+                judge(f'TableBlueprint.build:subject:{norm(a.args[0]) if len(srcs) == 1 else norm(src_)}', tag, {'elem'}, '.columns', a, tb.file, 'index subject')
         col.check(n_col >= 1, 'C05-identity', 'TableBlueprint.build:subjects-linked', 'index subjects are linked to columns',
                   'TableBlueprint.build never appends a column object to the index subjects: subjects stay names', node=tb.node, file=tb.file)
         # the table that owns the subject columns is the table being built
@@ -413,7 +421,8 @@ def run(ctx, col: Collector):
 
     # ---------------------------------------------------------------- C05-enum
     def enum_match():
-        cb = idx.func(BP, 'ColumnBlueprint.build')
+        from ..inline import inlined_info as _ii
+        cb = _ii(idx, idx.func(BP, 'ColumnBlueprint.build'), 3)
         # whatever the search looks like: a (schema, name) key built for the type name may take its schema only from the type text or from the default-schema
         # constant - a key that pairs the type name with some other schema (the table's, a parameter) makes a bare type name mean different enums in different places
         locals_from_type = {norm(a.targets[0]) for a in ast.walk(cb.node) if isinstance(a, ast.Assign) and len(a.targets) == 1 and isinstance(a.targets[0], ast.Name)
@@ -555,22 +564,75 @@ def run(ctx, col: Collector):
                 schema_srcs.append(norm(a.value))
             elif nv and norm(t) == nv:
                 name_srcs.append(norm(a.value))
-        ok_schema = bool(schema_srcs) and all(("split('.')" in s and 'self.type' in s) or (s.startswith(("'", '"')) and len(s) > 2) for s in schema_srcs) \
-            and any(s.startswith(("'", '"')) for s in schema_srcs) and any('split' in s for s in schema_srcs)
-        ok_name = bool(name_srcs) and all(('self.type' in s) for s in name_srcs)
-        col.check(ok_schema, 'C05-enum', 'ColumnBlueprint.build:schema-provenance',
-                  f'the schema compared is the one written in the type, or the default-schema constant for a bare type ({schema_srcs})',
-                  f'the schema compared with the enum comes from {schema_srcs}: expected "part before the dot of the type" or the default-schema constant',
-                  node=ifs[0], file=cb.file)
-        col.check(ok_name, 'C05-enum', 'ColumnBlueprint.build:name-provenance', f'the name compared comes from the type text ({name_srcs})',
-                  f'the name compared with the enum comes from {name_srcs}', node=ifs[0], file=cb.file)
+        # follow local names to what they were computed from (single assignments and tuple unpackings, a few levels)
+        def resolve_src(txt: str, depth: int = 0) -> str:
+            if depth > 4:
+                return txt
+            try:
+                e = ast.parse(txt, mode='eval').body
+            except SyntaxError:
+                return txt
+            idx_ = None
+            if isinstance(e, ast.Subscript) and isinstance(e.slice, ast.Constant) and isinstance(e.value, ast.Name):
+                idx_, e = e.slice.value, e.value
+            if not isinstance(e, ast.Name):
+                return txt
+            defs = []
+            for a in assigns:
+                t = a.targets[0]
+                if isinstance(t, ast.Name) and t.id == e.id:
+                    defs.append(norm(a.value) if idx_ is None else f'{norm(a.value)}[{idx_}]')
+                elif isinstance(t, ast.Tuple):
+                    for k_, x in enumerate(t.elts):
+                        if isinstance(x, ast.Name) and x.id == e.id:
+                            if isinstance(a.value, ast.Tuple) and len(a.value.elts) == len(t.elts):
+                                defs.append(norm(a.value.elts[k_]))
+                            else:
+                                defs.append(f'{norm(a.value)}[{k_}]')
+            if len(defs) != 1:
+                return txt
+            return resolve_src(defs[0], depth + 1)
+
+        def classify(sx: str) -> str:
+            r = resolve_src(sx)
+            if r.startswith(("'", '"')) and len(r) > 2:
+                return 'const'
+            if 'self.type' in r:
+                return 'type-split' if 'split' in r or 'partition' in r else 'type'
+            try:
+                e = ast.parse(r, mode='eval').body
+            except SyntaxError:
+                return 'unknown'
+            if isinstance(e, ast.Name):
+                return 'param' if e.id in params_ else 'unknown'
+            if isinstance(e, ast.Attribute) and norm(e).startswith('self.'):
+                return 'foreign'
+            return 'unknown'
+        sk = [classify(x) for x in schema_srcs]
+        nk = [classify(x) for x in name_srcs]
+        shown_s = [resolve_src(x) for x in schema_srcs]
+        shown_n = [resolve_src(x) for x in name_srcs]
+        cons_s, cons_n = 'ColumnBlueprint.build:schema-provenance', 'ColumnBlueprint.build:name-provenance'
+        if sk and all(k in ('type-split', 'const') for k in sk) and 'const' in sk and 'type-split' in sk:
+            col.ok('C05-enum', cons_s, f'the schema compared is the one written in the type, or the default-schema constant for a bare type ({shown_s})', node=ifs[0], file=cb.file)
+        elif any(k in ('foreign', 'param', 'type') for k in sk) or (sk and all(k in ('type-split', 'const') for k in sk)):
+            col.bad('C05-enum', cons_s, f'the schema compared with the enum comes from {shown_s}: expected "part before the dot of the type" or the default-schema constant',
+                    node=ifs[0], file=cb.file)
+        else:
+            col.unk('C05-enum', cons_s, f'cannot follow where the schema compared with the enum comes from ({shown_s or "no assignment found"})', node=ifs[0], file=cb.file)
+        if nk and all(k in ('type-split', 'type') for k in nk):
+            col.ok('C05-enum', cons_n, f'the name compared comes from the type text ({shown_n})', node=ifs[0], file=cb.file)
+        elif any(k in ('foreign', 'param', 'const') for k in nk):
+            col.bad('C05-enum', cons_n, f'the name compared with the enum comes from {shown_n}', node=ifs[0], file=cb.file)
+        else:
+            col.unk('C05-enum', cons_n, f'cannot follow where the name compared with the enum comes from ({shown_n or "no assignment found"})', node=ifs[0], file=cb.file)
     guarded(col, 'C05-enum', 'enum-resolution', enum_match)
 
     # ---------------------------------------------------------------- C05-wiring
     def wiring():
-        from ..inline import inlined_info
-        pb = inlined_info(idx, idx.func(PARSER, 'PyDBMLParser.parse_blueprint'))
-        bp_param = None
+        # parse_blueprint specialised per blueprint class (rules/wiring.py): which objects get `.parser = <this parser>`
+        from .wiring import kind_facts
+        pb = idx.func(PARSER, 'PyDBMLParser.parse_blueprint')
         # blueprint classes that read self.parser in build / helpers
         needs: Set[str] = set()
         base = idx.cls(BP, 'Blueprint')
@@ -579,54 +641,53 @@ def run(ctx, col: Collector):
                 if any(isinstance(n, ast.Attribute) and norm(n) == 'self.parser' and isinstance(n.ctx, ast.Load) for n in ast.walk(m.node)):
                     needs.add(ci.name)
         col.floor('C05-wiring', 'blueprints that need the parser', len(needs), 3)
-        # sites that set .parser = self
-        sets: List[Tuple[str, ast.AST, Optional[ast.AST]]] = []
-        for n in ast.walk(pb.node):
-            if isinstance(n, ast.Assign) and isinstance(n.targets[0], ast.Attribute) and n.targets[0].attr == 'parser' and norm(n.value) == 'self':
-                sets.append((norm(n.targets[0].value), n, None))
-        var = None
-        for st in pb.node.body:
-            if isinstance(st, ast.Assign) and isinstance(st.value, ast.Subscript) and norm(st.value.slice) == '0':
-                var = norm(st.targets[0])
-        if var is None:
-            raise Unrecognised('parse_blueprint does not start with `blueprint = tok[0]`', pb.node)
-        # (1) the blueprint itself: unconditional final statement
-        top_level = [n for n in pb.node.body if isinstance(n, ast.Assign) and isinstance(n.targets[0], ast.Attribute)
-                     and norm(n.targets[0]) == f'{var}.parser' and norm(n.value) == 'self']
-        col.check(bool(top_level), 'C05-wiring', 'parse_blueprint:blueprint.parser', 'every collected blueprint gets .parser = self',
-                  f'parse_blueprint does not unconditionally set {var}.parser = self: references and table groups cannot resolve their tables '
-                  f'(RuntimeError / unresolved)', node=pb.node, file=pb.file)
-        # (2) columns of a table blueprint, (3) inline reference blueprints
-        def loop_sets(src_pred) -> bool:
-            for n in ast.walk(pb.node):
-                if isinstance(n, ast.For):
-                    from .common import resolve_names, value_sources
-                    src = ('expr', resolve_names(pb.node, n.iter))
-                    if isinstance(n.iter, ast.Name):
-                        vs = value_sources(pb.node, n.iter.id)
-                        src = ('expr', ' | '.join(resolve_names(pb.node, v) for v in vs) if vs else src[1])
-                    if src_pred(src[1]):
-                        tv = norm(n.target)
-                        for s in n.body:
-                            if isinstance(s, ast.Assign) and norm(s.targets[0]) == f'{tv}.parser' and norm(s.value) == 'self':
-                                return True
-            return False
-        from .common import resolve_names as _rn
-        var_res = _rn(pb.node, ast.parse(var, mode='eval').body)
-        if 'ColumnBlueprint' in needs:
-            col.check(loop_sets(lambda s: f'{var}.columns' in s or f'{var_res}.columns' in s), 'C05-wiring', 'parse_blueprint:columns.parser',
-                      'every column blueprint of a table gets .parser = self',
-                      'parse_blueprint does not set .parser on the column blueprints: ColumnBlueprint.build silently skips enum resolution '
-                      '(`if self.parser:`), so enum-typed columns keep a string type', node=pb.node, file=pb.file)
-        if 'ReferenceBlueprint' in needs:
-            col.check(loop_sets(lambda s: 'get_reference_blueprints' in s), 'C05-wiring', 'parse_blueprint:inline-refs.parser',
-                      'every inline reference blueprint gets .parser = self',
-                      'parse_blueprint does not set .parser on the inline reference blueprints', node=pb.node, file=pb.file)
-        # inline refs are collected for building
-        app = any(isinstance(n, ast.Call) and isinstance(n.func, ast.Attribute) and n.func.attr in ('append', 'extend') and norm(n.func.value) == 'self.refs'
-                  for l in ast.walk(pb.node) if isinstance(l, ast.For) for n in ast.walk(l))
-        col.check(app, 'C05-wiring', 'parse_blueprint:inline-refs-collected', 'inline references are queued with the standalone ones',
-                  'parse_blueprint does not add the inline reference blueprints to self.refs', node=pb.node, file=pb.file)
+        facts = {ci.name: kind_facts(ctx, ci.name) for ci in idx.subclasses(base.id)}
+        top = sorted(k for k, f in facts.items() if any(what == 'self' for _, _, what, _, _ in f.stores))
+        col.floor('C05-wiring', 'blueprint classes collected by parse_blueprint', len(top), 6)
+
+        def judge(cons: str, kinds: List[str], wanted: Tuple[str, ...], okmsg: str, badmsg: str):
+            """Every kind has an unconditional `.parser = self` on one of the wanted objects."""
+            worst = None
+            for k in kinds:
+                f = facts[k]
+                hits = [(n_, c_) for w in wanted for n_, c_ in f.parser_sets.get(w, [])]
+                if any(not c_ for _, c_ in hits):
+                    continue
+                if hits:
+                    worst = worst or ('unk', f'for {k} the parser is set only under {hits[0][1]}')
+                elif f.undecided or f.opaque or any(d.startswith('?') for d in f.parser_sets):
+                    worst = worst or ('unk', f'for {k} the specialised parse_blueprint still has parts that could not be followed '
+                                      f'({"an undecided isinstance test" if f.undecided else (f.opaque or [d for d in f.parser_sets if d.startswith("?")])[0]})')
+                else:
+                    worst = ('bad', f'for {k}: after resolving the dispatch and inlining every helper, nothing assigns `.parser` to {" / ".join(wanted)} '
+                             f'(objects that do get it: {sorted(f.parser_sets) or "none"})')
+            if worst is None:
+                col.ok('C05-wiring', cons, okmsg, node=pb.node, file=pb.file)
+            elif worst[0] == 'bad':
+                col.bad('C05-wiring', cons, f'{badmsg} - {worst[1]}', node=pb.node, file=pb.file)
+            else:
+                col.unk('C05-wiring', cons, f'{okmsg}: not established - {worst[1]}', node=pb.node, file=pb.file)
+        judge('parse_blueprint:blueprint.parser', [k for k in top if k in needs], ('self',), 'every collected blueprint that needs it gets .parser = self',
+              'parse_blueprint does not set .parser = self on a collected blueprint: references and table groups cannot resolve their tables (RuntimeError / unresolved)')
+        INLINE = ('elem(self.get_reference_blueprints())', 'elem(elem(self.columns).ref_blueprints)')
+        if 'TableBlueprint' in facts:
+            if 'ColumnBlueprint' in needs:
+                judge('parse_blueprint:columns.parser', ['TableBlueprint'], ('elem(self.columns)',), 'every column blueprint of a table gets .parser = self',
+                      'parse_blueprint does not set .parser on the column blueprints: ColumnBlueprint.build silently skips enum resolution (`if self.parser:`), so '
+                      'enum-typed columns keep a string type')
+            if 'ReferenceBlueprint' in needs:
+                judge('parse_blueprint:inline-refs.parser', ['TableBlueprint'], INLINE, 'every inline reference blueprint gets .parser = self',
+                      'parse_blueprint does not set .parser on the inline reference blueprints')
+            f = facts['TableBlueprint']
+            queued = [s_ for s_ in f.stores if s_[0] == 'self.refs' and s_[2] in INLINE]
+            if queued and any(not s_[4] for s_ in queued):
+                col.ok('C05-wiring', 'parse_blueprint:inline-refs-collected', 'inline references are queued with the standalone ones', node=pb.node, file=pb.file)
+            elif queued or f.undecided or f.opaque:
+                col.unk('C05-wiring', 'parse_blueprint:inline-refs-collected', 'cannot establish that the inline reference blueprints are always added to self.refs',
+                        node=pb.node, file=pb.file)
+            else:
+                col.bad('C05-wiring', 'parse_blueprint:inline-refs-collected', f'parse_blueprint does not add the inline reference blueprints to self.refs (stores for a table: '
+                        f'{[(a, c) for a, _, c, _, _ in f.stores]})', node=pb.node, file=pb.file)
     guarded(col, 'C05-wiring', 'parser-wiring', wiring)
 
     # ---------------------------------------------------------------- C05-owner (ownership queries)
